@@ -283,3 +283,152 @@ func localFuncTargets(v ssa.Value) ([]*ssa.Function, bool) {
 	}
 	return out, true
 }
+
+// roTableConst: v reads a constant-index element of a read-only table (`watchedDirectories[1]`): the constant stored there.
+func roTableConst(p *Program, v ssa.Value) (*ssa.Const, bool) {
+	u, ok := v.(*ssa.UnOp)
+	if !ok || u.Op != token.MUL {
+		return nil, false
+	}
+	ia, ok := u.X.(*ssa.IndexAddr)
+	if !ok {
+		return nil, false
+	}
+	g, ok := ia.X.(*ssa.Global)
+	k, ok2 := ia.Index.(*ssa.Const)
+	if !ok || !ok2 || k.Value == nil {
+		return nil, false
+	}
+	var found *ssa.Const
+	for _, st := range p.readOnlyTables()[g] {
+		sa, ok := st.addr.(*ssa.IndexAddr)
+		if !ok || sa.X != ssa.Value(g) {
+			continue
+		}
+		sk, ok := sa.Index.(*ssa.Const)
+		if !ok || sk.Value == nil || sk.Int64() != k.Int64() {
+			continue
+		}
+		c, isConst := st.val.(*ssa.Const)
+		if !isConst || found != nil {
+			return nil, false
+		}
+		found = c
+	}
+	return found, found != nil
+}
+
+// resolveValue: v is a read of a local variable that is assigned exactly once, where it is declared (`closeWatcher :=
+// watcher.Close`), possibly read inside a closure that captured it: the assigned value. Anything else is returned as is.
+func resolveValue(v ssa.Value) ssa.Value {
+	for i := 0; i < 4; i++ {
+		u, ok := v.(*ssa.UnOp)
+		if !ok || u.Op != token.MUL {
+			return v
+		}
+		cell := u.X
+		for j := 0; j < 4; j++ {
+			fv, isFV := cell.(*ssa.FreeVar)
+			if !isFV {
+				break
+			}
+			fn := fv.Parent()
+			idx := -1
+			for k, x := range fn.FreeVars {
+				if x == fv {
+					idx = k
+				}
+			}
+			refs := fn.Referrers()
+			if idx < 0 || refs == nil || len(*refs) != 1 {
+				return v
+			}
+			mc, isMC := (*refs)[0].(*ssa.MakeClosure)
+			if !isMC || idx >= len(mc.Bindings) {
+				return v
+			}
+			cell = mc.Bindings[idx]
+		}
+		a, ok := cell.(*ssa.Alloc)
+		if !ok {
+			return v
+		}
+		var stores []*ssa.Store
+		okUse := true
+		var scan func(c ssa.Value, depth int)
+		scan = func(c ssa.Value, depth int) {
+			refs := c.Referrers()
+			if refs == nil || depth > 4 {
+				okUse = false
+				return
+			}
+			for _, r := range *refs {
+				switch y := r.(type) {
+				case *ssa.Store:
+					if y.Addr != c {
+						okUse = false // the address itself is stored somewhere
+						return
+					}
+					stores = append(stores, y)
+				case *ssa.UnOp:
+					if y.Op != token.MUL {
+						okUse = false
+					}
+				case *ssa.MakeClosure:
+					child := y.Fn.(*ssa.Function)
+					for k, b := range y.Bindings {
+						if b == c && k < len(child.FreeVars) {
+							scan(child.FreeVars[k], depth+1)
+						}
+					}
+				case *ssa.DebugRef:
+				default:
+					okUse = false
+				}
+			}
+		}
+		scan(a, 0)
+		if !okUse || len(stores) != 1 || stores[0].Block() != a.Block() {
+			return v
+		}
+		// nothing uses the variable between its declaration and the assignment
+		between := false
+		state := 0
+		for _, in := range a.Block().Instrs {
+			if in == ssa.Instruction(a) {
+				state = 1
+				continue
+			}
+			if in == ssa.Instruction(stores[0]) {
+				break
+			}
+			if state == 1 {
+				var ops [12]*ssa.Value
+				for _, op := range in.Operands(ops[:0]) {
+					if op != nil && *op == ssa.Value(a) {
+						between = true
+					}
+				}
+			}
+		}
+		if between {
+			return v
+		}
+		v = stores[0].Val
+	}
+	return v
+}
+
+// boundMethodOf: the value called is (a variable holding) a method value `x.M`: the method and its receiver.
+func boundMethodOf(v ssa.Value) (*types.Func, ssa.Value) {
+	mc, ok := resolveValue(v).(*ssa.MakeClosure)
+	if !ok || len(mc.Bindings) != 1 {
+		return nil, nil
+	}
+	fn, ok := mc.Fn.(*ssa.Function)
+	if !ok || fn.Synthetic == "" || len(fn.Name()) < 6 || fn.Name()[len(fn.Name())-6:] != "$bound" {
+		return nil, nil
+	}
+	m, _ := fn.Object().(*types.Func)
+	return m, mc.Bindings[0]
+}
